@@ -553,7 +553,10 @@ class Vector():
 			return self._underlying[key[-1]][key[:-1]]
 
 		key = self._check_duplicate(key)
-		if isinstance(key, Vector) and key.schema().kind == bool and not key.schema().nullable:
+		if isinstance(key, Vector) and key.schema() is None and len(key) == 0:
+			# an untyped empty vector (Vector([])) selects nothing
+			return self.copy((), name=self._name)
+		if isinstance(key, Vector) and key.schema() is not None and key.schema().kind == bool and not key.schema().nullable:
 			if len(self) != len(key):
 				raise ValueError(f"Boolean mask length mismatch: {len(self)} != {len(key)}")
 			return self.copy((x for x, y in zip(self, key, strict=True) if y), name=self._name)
@@ -565,7 +568,7 @@ class Vector():
 			return self.copy(self._underlying[key], name=self._name)
 
 		# NOT RECOMMENDED
-		if isinstance(key, Vector) and key.schema().kind == int and not key.schema().nullable:
+		if isinstance(key, Vector) and key.schema() is not None and key.schema().kind == int and not key.schema().nullable:
 			if len(self) > 1000:
 				warnings.warn('Subscript indexing is sub-optimal for large vectors; prefer slices or boolean masks')
 			return self.copy((self[x] for x in key), name=self._name)
@@ -618,6 +621,7 @@ class Vector():
 		# =====================================================================
 		if (
 			isinstance(key, Vector)
+			and key.schema() is not None
 			and key.schema().kind == bool
 			and not key.schema().nullable
 		) or (
@@ -679,6 +683,7 @@ class Vector():
 		# =====================================================================
 		elif (
 			isinstance(key, Vector)
+			and key.schema() is not None
 			and key.schema().kind == int
 			and not key.schema().nullable
 		):
@@ -1731,9 +1736,9 @@ class _Date(Vector):
 			# Raise mismatched lengths
 			if len(self) != len(other):
 				raise ValueError(f"Length mismatch: {len(self)} != {len(other)}")
-			if other.schema().kind == str:
+			if other.schema() is not None and other.schema().kind == str:
 				return Vector(tuple(False if (x is None or y is None) else bool(op(x, date.fromisoformat(y))) for x, y in zip(self, other, strict=True)), dtype=DataType(bool))
-			if other.schema().kind == datetime:
+			if other.schema() is not None and other.schema().kind == datetime:
 				return Vector(tuple(False if (x is None or y is None) else bool(op(datetime.combine(x, datetime.min.time()), y)) for x, y in zip(self, other, strict=True)), dtype=DataType(bool))
 		elif isinstance(other, Iterable) and not isinstance(other, (str, bytes, bytearray)):
 			# Raise mismatched lengths
@@ -1793,7 +1798,7 @@ class _Date(Vector):
 
 	def __add__(self, other):
 		""" adding integers is adding days """
-		if isinstance(other, Vector) and other.schema().kind == int:
+		if isinstance(other, Vector) and other.schema() is not None and other.schema().kind == int:
 			if len(self) != len(other):
 				raise ValueError(f"Length mismatch: {len(self)} != {len(other)}")
 			return Vector(tuple(
